@@ -32,6 +32,12 @@ def obligations(ctx):
                 obs.append(ag.api_ob(t, api, nn, 0, avx, 2, 2, nrows=2, ncols=2, flags=("--slice-formula", "--nondet-static"), tag="nostatic/"))
     for api in (1, 2, 3):
         obs.append(ag.api_ob(t, api, 4, 1, 1, 2, 2, flags=("--slice-formula", "--nondet-static"), tag="nostatic/"))
+    # (2') the SSA write set of every entry point contains no shared static-lifetime object
+    for avx in (0, 1):
+        for api in (1, 2, 3, 4, 5, 6, 7, 8, 9):
+            obs.append(ag.api_writeset_ob(t, api, 8, 0, avx, 2, 2, nrows=2, ncols=2))
+    for api in (1, 2, 3):
+        obs.append(ag.api_writeset_ob(t, api, 4, 1, 1, 2, 2))
     # (3) warm-up protocol of the *_simple functions
     obs += [o for o in c15.history_obs(ctx) if "/avx=1" in o.name or "same-dim" in o.name]
     # (4) thread-local caches under call-granularity interleavings of two threads
